@@ -205,7 +205,7 @@ def graph_replay(ctx, spec_dir, module, cfg, tag, replayer, proj_keys, header_fn
             hdr = header_fn(k, st0) if header_fn else {}
             f.write("BEGIN %s_%d %s\n" % (tag, k, vlib.canon(hdr)))
             for (label, dst) in steps:
-                f.write("%s\t%s\n" % (label.replace("\n", " "), vlib.canon(vlib.project(g.state(dst), proj_keys))))
+                f.write("%s\t%s\n" % (label.replace("\n", " "), vlib.canon(proj_keys(g.state(dst)) if callable(proj_keys) else vlib.project(g.state(dst), proj_keys))))
                 n += 1
             f.write("END\n")
     rc, out = vlib.run_cmd([replayer] + (replayer_args or []), stdin_path=script, timeout=replay_timeout, env=env)
